@@ -27,11 +27,16 @@ class Unsupported(Exception):
     pass
 
 
+_SERIAL = [0]
+
+
 class Obj(object):
     """a memory object: `data` is a list of cell values, `esize` bytes each"""
 
     def __init__(self, name, data, esize=8, kind="buf", writable=True):
         self.name, self.data, self.esize, self.kind, self.writable = name, data, esize, kind, writable
+        _SERIAL[0] += 1
+        self.serial = _SERIAL[0]
         self.reads = set()
         self.writes = set()
 
@@ -49,6 +54,8 @@ class MapObj(object):
         self.zero = zero
         self.esize = 1
         self.reads, self.writes = set(), set()
+        _SERIAL[0] += 1
+        self.serial = _SERIAL[0]
 
 
 class Ptr(object):
@@ -80,6 +87,7 @@ class Interp(object):
         self.oob = []              # recorded out-of-bounds accesses (when not raising)
         self.raise_oob = True
         self.trace_calls = []
+        self.omp = None            # OmpState in footprint mode (vf/llsym/omp.py)
 
     # ------------------------------------------------------------------ helpers for harnesses
     def buf(self, name, values, esize=8, writable=True):
@@ -98,6 +106,10 @@ class Interp(object):
             return env[tok]
         if tok[0] == "@":
             return self.global_ptr(tok)
+        if tok.startswith("bitcast ("):
+            mm = re.search(r"(@[\w.\-$]+) to ", tok)
+            if mm:
+                return self.global_ptr(mm.group(1))
         ty = ty.strip()
         if ty in ("double", "float"):
             return lift_f(ir.parse_double(tok))
@@ -136,6 +148,8 @@ class Interp(object):
                     t = mm.group(1)
                     v = lift_f(ir.parse_double(mm.group(2))) if t in ("double", "float") else int(mm.group(2))
                     o = Obj(name, [v], ir.PRIM[t], "global", True)
+                elif init.startswith("%struct.ident_t"):
+                    o = MapObj(name, 24, "global", zero=True)       # OpenMP source-location descriptor: never dereferenced by the model
                 elif re.match(r".*\* null", init):
                     o = Obj(name, [None], 8, "global", True)
                 else:
@@ -182,6 +196,8 @@ class Interp(object):
     def load(self, p, ty):
         size = self.m.size_align(ty)[0]
         o, i = self._resolve(p, size)
+        if self.omp is not None:
+            self.omp.record(o, i * (1 if (o is REAL or isinstance(o, MapObj) or o is None) else o.esize), size, "R")
         if o is None:
             return ZERO if ty in ("double", "float") else 0
         if o is REAL:
@@ -204,6 +220,10 @@ class Interp(object):
     def store(self, p, ty, v):
         size = self.m.size_align(ty)[0]
         o, i = self._resolve(p, size)
+        if self.omp is not None and o is not None and o is not REAL:
+            old = (o.cells.get(i, (None, None))[1] if isinstance(o, MapObj) else o.data[i])
+            same = old is v or (isinstance(old, (int, bool)) and isinstance(v, (int, bool)) and old == v)
+            self.omp.record(o, i * (1 if isinstance(o, MapObj) else o.esize), size, "W", silent=same)
         if o is None:
             return
         if o is REAL:
